@@ -603,6 +603,14 @@ def tie_explains(sc, a, b, run=None):
       * the commission of a cleared-market summary when profit x rate is an exact tie;
       * in decimal (non-dyadic) scenarios, 2dp quantities derived from products of 2dp numbers
         (average prices, profits) - the caller then stops comparing this scenario (tie_truncated)."""
+    if run is not None:
+        # float noise: a market-on-close liability scaled by a non-dyadic non-runner multiplier (never rounded by the
+        # code) that is a 2dp amount in exact arithmetic but not as a double; OrderValidation then refuses it
+        for o in run.orders:
+            liab = getattr(o.order_type, "liability", None)
+            if liab is not None and "liability has more than 2dp" in (o.violation_msg or "") and round(liab, 2) != liab \
+                    and abs(round(liab, 2) - liab) < 1e-9:
+                return True
     xs, ys = re.split(r"([ ,])", a), re.split(r"([ ,])", b)
     if len(xs) != len(ys):
         return False
